@@ -33,21 +33,3 @@ spec fn file_post<ID>(id: ID, fr: ParseFileResult<ID>, defined: Map<String, Reso
             #[trigger] appended(d2, d3, containers_expect(ts, ts.len() as int))
             && ts == types_of(out.ast->0) && prefix_kept(fr.diagnostics@, d2))
 }
-
-// oneway propagation changes no type node (so the container diagnostics speak about the returned tree)
-broadcast proof fn lemma_propagation_keeps_types(o: ast::Interface, n: ast::Interface)
-    requires #[trigger] oneway_propagated(o, n)
-    ensures iface_types(n.elements@, n.elements@.len() as int) == iface_types(o.elements@, o.elements@.len() as int)
-{
-    lemma_propagation_keeps_types_upto(o, n, o.elements@.len() as int);
-}
-proof fn lemma_propagation_keeps_types_upto(o: ast::Interface, n: ast::Interface, k: int)
-    requires oneway_propagated(o, n), 0 <= k <= o.elements@.len()
-    ensures iface_types(n.elements@, k) == iface_types(o.elements@, k)
-    decreases k
-{
-    if k > 0 {
-        lemma_propagation_keeps_types_upto(o, n, k - 1);
-        assert(element_propagated(o.elements@[k - 1], n.elements@[k - 1], o.oneway));
-    }
-}
